@@ -228,6 +228,31 @@ PROPS['C13'] = dict(
 )
 
 
+def expect_streams(tier):
+    n = {'quick': 48000, 'extended': 300000, 'thorough': 1500000}[tier]
+    return [dict(name='lines', harness=['expect', str(n), '{seed}', '{shard}', '{nshards}'], driver='expect')]
+
+
+PROPS['C08'] = dict(
+    family='line', tags={'P': 'expect'},
+    theorems=['C08_grammar_complete', 'C08_grammar_sound', 'C08_other_lines_are_equal', 'C08_modifier_extracted', 'C08_fails_only_when_marked',
+              'C08_round_trip_equal', 'C08_round_trip_equal_unprintable', 'C08_round_trip_escaped', 'C08_round_trip_noeol',
+              'C08_round_trip_glob_partial', 'C08_round_trip_regex_partial'],
+    streams=expect_streams,
+    spec_kinds=['SPEC:C08'], corr_kinds=['DIFF:parse', 'DIFF:render'],
+    case_format='P <hex line>|ok/err/panic|<kind>:<hex expression bytes>:<optional><multiline> (unmake)|<hex original_string>|<hex canonical form, ascii>|<its re-parse>|<hex canonical form, unicode>|<its re-parse>',
+    rule='a fixed table of 8 expressions x 40 suffix forms (every alias x quantifier, nested/doubled groups, (), ( ), (foo), tab / NBSP / U+3000 before the group, no space) plus random expressions '
+         '(backslashes, escape sequences, control and multi-byte characters, glob/regex metacharacters, parentheses) followed by 0-2 suffix forms. Non-trivial: non-empty line; distinct by line',
+    manifest=dict(text='Machine-checked theorems (Coq): the grammar model returns (expression, kind, quantifier) exactly for lines of the documented shape (both directions), any other line -- also one ending in () -- is an equal expectation for the whole line; parsing can fail only for escaped, escaped-glob and regex expressions; the canonical form parses back to the same expectation for equal (incl. quantifiers and expressions ending in a parenthesis), escaped and no-eol expectations, and to an escaped expectation with the same content for equal expectations with unprintable content; glob/regex under fixed-point hypotheses on the external crates (named _partial). Known findings are closed witnesses. Tied to /repo by ExpectationMaker::parse / unmake / to_expression_string / re-parse on generated lines.',
+                  technique='Coq proof (list reversal characterisation of the lazy grammar regex, regenerated kind and whitespace tables) + differential correspondence + round-trip oracle on the implementation',
+                  note='Partial for glob/regex round trip: wildmatch normalisation and the regex crate are parameters.'),
+    exhaustive={'quick': False, 'thorough': False},
+    assumptions=['lines contain no LF (they come from str::lines); the grammar regex would not match a line with an embedded LF',
+                 'regex crate: leftmost-first alternation, lazy quantifier, \\s = White_Space (table regenerated from char::is_whitespace)',
+                 'wildmatch pattern normalisation and scrut\'s regex preparation/compilation are parameters of the model (taken from the implementation in the correspondence)'],
+)
+
+
 def run_one(prop, inp, ctx):
     """re-run one case through the implementation and the model; returns CASE lines"""
     cfg = PROPS[prop]
